@@ -78,7 +78,7 @@ func relativeOne(x *explorer, s *spec, p placement, mode, cwdSel string, idx int
 		Msg: fmt.Sprintf("root opened as %q with cwd %s (placement %s): outcome %s %q, but %s %q when the same root is opened by absolute path",
 			rel, cwdSel, p.name(), co.Class, co.Err, abs.class(), abs.errText()),
 		Place: p.name(), Mode: mode, Observed: co.Class, ObservedErr: co.Err}
-	x.col.add(f.Sig, f.Msg, []int{len(e.Reach), len(s.edges()), s.N, idx}, func() map[string]any {
+	x.col.add(f.Sig, f.Msg, []int{shapeRank[e.Shape], len(e.Reach), len(s.edges()), s.N, idx}, func() map[string]any {
 		return map[string]any{"kind": "relative-root", "n": s.N, "edges": s.edgeString(), "edge_pairs": s.edges(), "go_packages": s.Pkgs,
 			"mode": mode, "placement": map[string]string{"kind": p.Kind, "style": p.Style}, "root": rel, "cwd": cwdSel, "files": files,
 			"observed": co.Class, "observed_error": co.Err, "absolute_root_outcome": abs.class(), "absolute_root_error": abs.errText()}
